@@ -25,6 +25,10 @@ const fhirQuantityRegexp = `^(?P<value>(\+|-)?\d+(\.\d+)?)\s*('(?P<unit>[^']+)'|
 
 var regex = regexp.MustCompile(fhirQuantityRegexp)
 
+// Based on the FHIRPath convertsToDecimal string validation regexp defined here:
+// https://hl7.org/fhirpath/N1/#convertstodecimal-boolean
+var decimalRegexp = regexp.MustCompile(`^(\+|-)?\d+(\.\d+)?$`)
+
 // ConvertsToBoolean checks if the input can be converted to a Boolean
 // FHIRPath docs here: https://hl7.org/fhirpath/N1/#convertstoboolean-boolean
 func ConvertsToBoolean(ctx *expr.Context, input system.Collection, args ...expr.Expression) (system.Collection, error) {
@@ -354,6 +358,10 @@ func ToDecimal(ctx *expr.Context, input system.Collection, args ...expr.Expressi
 		return system.Collection{result}, nil
 	case system.String:
 		str := fmt.Sprintf("%s", value)
+		if !decimalRegexp.MatchString(str) {
+			// exponents, missing digits and the like are not convertible
+			return system.Collection{}, nil
+		}
 		result, err := system.ParseDecimal(str)
 		if err != nil {
 			return system.Collection{}, nil
